@@ -17,6 +17,9 @@ tab = ('Independent sub-agents were given only a property text and a scratch wor
        'property while the pinned 63 tests still pass, with a demonstration. Each was confirmed with `tools/verify_seed.py`\n'
        '(fresh worktree + patch; pinned tests; demonstration fails with / passes without the change; the property\'s quick check\n'
        'run with `VERIF_REPO=<worktree>`). Kept under `/verif/seeded/<id>/`.\n\n'
+       + f'{len(rows)} seeded changes; {sum(1 for r in rows if "| caught" in r or "caught after strengthening" in r)} are caught by the quick tier of the '
+         f'property they were written against, {sum(1 for r in rows if "caught after strengthening" in r)} of them only after the check was strengthened '
+         f'(what was missing is recorded per row; the strengthening is described in 9.2); {sum(1 for r in rows if "| MISSED" in r)} are missed.\n\n'
        '| id | files | what breaks | needs | confirmed | our check |\n|---|---|---|---|---|---|\n' + '\n'.join(rows) + '\n')
 p = '/verif/DESIGN.md'
 s = open(p).read()
